@@ -2,6 +2,7 @@ package spec
 
 import (
 	"go/ast"
+	"go/token"
 	"go/types"
 	"strings"
 
@@ -188,10 +189,20 @@ func runC19(r *an.Run) {
 			}
 			// the clamp precedes the amount
 			if d, ok := defSite["amountToSend"]; ok {
+				// the clamp is the test inboundFee < minInboundFee (operands in either
+				// order) or the assignment inboundFee = max(inboundFee, minInboundFee)
 				var clampCond *an.FlowVertex
-				for _, v := range pe.Graph().V {
-					if e, ok := v.Node.(ast.Expr); ok && an.Text(e) == "inboundFee < minInboundFee" {
-						clampCond = v
+				for e := range pe.EdgesOf(an.CmpX(an.LocalNamed("inboundFee"), an.LT, an.LocalNamed("minInboundFee"), "inboundFee < minInboundFee")) {
+					if clampCond == nil || e.From.Pos() < clampCond.Pos() {
+						clampCond = e.From
+					}
+				}
+				for _, s := range pe.Assigns(an.LocalNamed("inboundFee"), false) {
+					as, ok := s.Node.(*ast.AssignStmt)
+					if ok && clampCond == nil && len(as.Lhs) == 1 && len(as.Rhs) == 1 && as.Tok == token.ASSIGN && c19IsMaxOf(pe, as.Rhs[0],
+						func(e ast.Expr) bool { return an.LocalNamed("inboundFee")(pe, ast.Unparen(e)) },
+						func(e ast.Expr) bool { return an.LocalNamed("minInboundFee")(pe, ast.Unparen(e)) }) {
+						clampCond = s.V
 					}
 				}
 				if clampCond == nil {
@@ -391,22 +402,49 @@ func runC19(r *an.Run) {
 		"the 'a node's total fee is never negative' clamp has the same form where edges are selected (calcCappedInboundFee) and where the search accumulates (processEdge): inboundFee = edge.inboundFees.CalcFee(net amount received); if inboundFee < -int64(outbound fee of the next hop) then inboundFee = that bound",
 		"two different clamps make edge selection admit an amount the search then prices differently: the route's amounts no longer match what each node demands", 4,
 		func(o *an.Obl) {
+			// the clamp of x at the bound b is `if x < b { x = b }`, `x = max(x, b)`
+			// or, where x is what the function returns, `if x < b { return b }`
 			f := p.Func(rt + "calcCappedInboundFee")
+			isFee := func(e ast.Expr) bool { return an.LocalNamed("inboundFee")(f, ast.Unparen(e)) }
+			isBound := func(e ast.Expr) bool { c := f.Canon(e); return c == "-int64($p2)" }
+			below := an.CmpX(an.LocalNamed("inboundFee"), an.LT, canonTerm(`^-int64\(\$p2\)$|^-\$p2$`), "inboundFee < -int64(nextOutFee)")
+			nComputed, nClamp := 0, 0
 			for _, s := range f.Assigns(an.LocalNamed("inboundFee"), false) {
-				c := f.Canon(s.Node.(*ast.AssignStmt).Rhs[0])
-				o.Site("calcCappedInboundFee: inboundFee %s %s", s.Node.(*ast.AssignStmt).Tok, c)
-				switch c {
-				case "$p0.inboundFees.CalcFee($p1)":
-				case "-int64($p2)":
-					guarded(o, f, s, an.CmpX(an.LocalNamed("inboundFee"), an.LT, canonTerm(`^-int64\(\$p2\)$|^-\$p2$`), "inboundFee < -int64(nextOutFee)"))
+				as, ok := s.Node.(*ast.AssignStmt)
+				if !ok || len(as.Lhs) != 1 || len(as.Rhs) != 1 || (as.Tok != token.ASSIGN && as.Tok != token.DEFINE) {
+					o.FailAt(f.ID+"#clamp-form", s.Where(), "inboundFee is changed by %s", an.Text(s.Node))
+					continue
+				}
+				c := f.Canon(as.Rhs[0])
+				o.Site("calcCappedInboundFee: inboundFee %s %s", as.Tok, c)
+				switch {
+				case c == "$p0.inboundFees.CalcFee($p1)":
+					nComputed++
+				case c == "-int64($p2)":
+					nClamp++
+					guarded(o, f, s, below)
+				case c19IsMaxOf(f, as.Rhs[0], isFee, isBound):
+					nClamp++
 				default:
 					o.FailAt(f.ID+"#clamp-form", s.Where(), "inboundFee is set to %s", c)
 				}
 			}
 			for _, s := range f.Returns() {
-				if an.Text(s.Node.(*ast.ReturnStmt).Results[0]) != "inboundFee" {
-					o.FailAt(f.ID+"#returns", s.Where(), "calcCappedInboundFee returns %s", an.Text(s.Node.(*ast.ReturnStmt).Results[0]))
+				res := s.Node.(*ast.ReturnStmt).Results[0]
+				switch {
+				case isFee(res):
+				case isBound(res):
+					// the bound itself, returned where the fee is below it
+					nClamp++
+					guarded(o, f, s, below)
+				case c19IsMaxOf(f, res, isFee, isBound):
+					nClamp++
+				default:
+					o.FailAt(f.ID+"#returns", s.Where(), "calcCappedInboundFee returns %s", an.Text(res))
 				}
+			}
+			if nComputed != 1 || nClamp != 1 {
+				o.FailAt(f.ID+"#clamp", f.Where(f.Body.Pos()), "calcCappedInboundFee computes inboundFee %d times and clamps it %d times, expected one computation and one clamp", nComputed, nClamp)
 			}
 			fp := p.Func(rt + "findPath")
 			for _, lf := range fp.Lits {
@@ -416,14 +454,24 @@ func runC19(r *an.Run) {
 				}
 				n := 0
 				for _, s := range ss {
-					c := an.Text(s.Node.(*ast.AssignStmt).Rhs[0])
-					o.Site("processEdge: inboundFee %s %s", s.Node.(*ast.AssignStmt).Tok, c)
-					switch c {
-					case "edge.inboundFees.CalcFee(toNodeDist.netAmountReceived)":
+					as, ok := s.Node.(*ast.AssignStmt)
+					if !ok || len(as.Lhs) != 1 || len(as.Rhs) != 1 || (as.Tok != token.ASSIGN && as.Tok != token.DEFINE) {
+						o.FailAt(lf.ID+"#clamp-form", s.Where(), "inboundFee is changed by %s", an.Text(s.Node))
+						continue
+					}
+					c := an.Text(as.Rhs[0])
+					o.Site("processEdge: inboundFee %s %s", as.Tok, c)
+					switch {
+					case c == "edge.inboundFees.CalcFee(toNodeDist.netAmountReceived)":
 						n++
-					case "minInboundFee":
+					case c == "minInboundFee":
 						n++
 						guarded(o, lf, s, an.CmpX(an.LocalNamed("inboundFee"), an.LT, an.LocalNamed("minInboundFee"), "inboundFee < minInboundFee"))
+					case c19IsMaxOf(lf, as.Rhs[0],
+						func(e ast.Expr) bool { return an.LocalNamed("inboundFee")(lf, ast.Unparen(e)) },
+						func(e ast.Expr) bool { return an.LocalNamed("minInboundFee")(lf, ast.Unparen(e)) }):
+						// the same clamp written with the builtin
+						n++
 					default:
 						o.FailAt(lf.ID+"#clamp-form", s.Where(), "inboundFee is set to %s", c)
 					}
@@ -451,12 +499,14 @@ func runC19(r *an.Run) {
 			// these forms only (`var x = v`, `=`, `op=`, `++` all count) and each
 			// form sits in its own branch.
 			forms := map[string]map[string]string{
-				"fee":                {"= 0": "final|floor", "= int64(outboundFee) + inboundFee": "forward"},
+				// (written with the outbound / inbound fee temporaries substituted: they
+				// are single-definition locals, wherever and under whatever name they
+				// are computed; a second assignment to one of them keeps it from being
+				// substituted and the form below is then not met)
+				"fee":                {"= 0": "final|floor", "= int64(pathEdges[i + 1].policy.ComputeFee(amtToForward)) + pathEdges[i].inboundFees.CalcFee(amtToForward + pathEdges[i + 1].policy.ComputeFee(amtToForward))": "forward"},
 				"amtToForward":       {"= finalHop.amt": "final", "= nextIncomingAmount": "forward"},
 				"nextIncomingAmount": {"= amtToForward + lnwire.MilliSatoshi(fee)": "every"},
 				"outgoingTimeLock":   {"= totalTimeLock": "final+forward"},
-				"outboundFee":        {"= pathEdges[i + 1].policy.ComputeFee(amtToForward)": "forward"},
-				"inboundFee":         {"= pathEdges[i].inboundFees.CalcFee(amtToForward + outboundFee)": "forward"},
 				"totalTimeLock": {"= currentHeight": "start", "+= uint32(finalHop.cltvDelta)": "final", "+= uint32(blindedPathSet.FinalCLTVDelta())": "final",
 					"+= uint32(pathEdges[i + 1].policy.TimeLockDelta)": "forward"},
 			}
@@ -465,6 +515,10 @@ func runC19(r *an.Run) {
 				names = append(names, n)
 			}
 			sortStrings(names)
+			keep := map[string]bool{}
+			for _, n := range names {
+				keep[n] = true
+			}
 			nZero := 0
 			for _, name := range names {
 				var fl []string
@@ -472,15 +526,18 @@ func runC19(r *an.Run) {
 					fl = append(fl, fm)
 				}
 				sortStrings(fl)
-				for fm, ds := range c19DefinedAs(o, f, name, append([]string{"zero"}, fl...)...) {
+				byForm, same, temps := c19DefinedAsN(o, f, name, keep, append([]string{"zero"}, fl...)...)
+				for fm, ds := range byForm {
 					branch := forms[name][fm]
 					nFinal, nForward := 0, 0
 					for _, d := range ds {
 						if d.Tok == "zero" {
 							continue
 						}
-						st := d.site()
-						if d.Fn != f || st.V == nil {
+						// (a literal the flow layer splices - an inlined helper - is part
+						// of newRoute's graph)
+						st := c19SiteFor(f, d.Node)
+						if c19InUnsplicedLit(st, d.Node) {
 							o.FailAt(f.ID+"#"+name+"-in-closure", f.Where(d.Node.Pos()), "%s %s is assigned inside a function literal", name, fm)
 							continue
 						}
@@ -497,11 +554,18 @@ func runC19(r *an.Run) {
 							guarded(o, f, st, last)
 						case "forward":
 							guarded(o, f, st, notLast)
+							for _, t := range temps[d.Node] {
+								if ts := c19SiteFor(f, t); c19InUnsplicedLit(ts, t) {
+									o.FailAt(f.ID+"#"+name+"-temp-in-closure", f.Where(t.Pos()), "%s: the temporary %s is computed inside a function literal", name, an.Text(t))
+								} else {
+									guarded(o, f, ts, notLast)
+								}
+							}
 						case "final|floor":
 							nZero++
 							if !isFinal {
 								guarded(o, f, st, notLast)
-								guarded(o, f, st, an.CmpX(an.LocalNamed("fee"), an.LT, an.IntConst(0), "fee < 0"))
+								guarded(o, f, st, an.CmpX(c19ObjTerm(same), an.LT, an.IntConst(0), "fee < 0"))
 							}
 						case "every", "start":
 							if isFinal || isForward || len(ds) != 1 {
@@ -522,11 +586,11 @@ func runC19(r *an.Run) {
 					switch fm {
 					case "+= uint32(finalHop.cltvDelta)":
 						for _, d := range ds {
-							guarded(o, f, d.site(), an.IsNil(an.Param(4), true, "blindedPathSet == nil"))
+							guarded(o, f, c19SiteFor(f, d.Node), an.IsNil(an.Param(4), true, "blindedPathSet == nil"))
 						}
 					case "+= uint32(blindedPathSet.FinalCLTVDelta())":
 						for _, d := range ds {
-							guarded(o, f, d.site(), an.IsNil(an.Param(4), false, "blindedPathSet != nil"))
+							guarded(o, f, c19SiteFor(f, d.Node), an.IsNil(an.Param(4), false, "blindedPathSet != nil"))
 						}
 					}
 				}
@@ -652,7 +716,39 @@ func runC19(r *an.Run) {
 						o.FailAt(hf.ID+"#"+name, s.Where(), "HopFee takes %s from %s, expected one of %v", name, c, want)
 					}
 					if c == "$recv.TotalAmount" {
-						guarded(o, hf, s, an.Cmp(an.Param(0), an.EQ, an.IntConst(0), "hopIndex == 0"))
+						// taken for the first hop only: either assigned below
+						// hopIndex == 0, or assigned as the default that the other
+						// definition replaces before anything reads it on every path
+						// where hopIndex != 0
+						first := an.Cmp(an.Param(0), an.EQ, an.IntConst(0), "hopIndex == 0")
+						if ok, _ := hf.Guarded(s, first); !ok {
+							stop := map[*an.FlowVertex]bool{}
+							for _, s2 := range ss {
+								if s2.V != s.V {
+									stop[s2.V] = true
+								}
+							}
+							bad := len(stop) == 0
+							for v := range hf.Graph().Reach(s.V, hf.EdgesOf(first), stop) {
+								if v == s.V || stop[v] {
+									continue
+								}
+								if v.Kind.String() == "return" || v == hf.Graph().Exit {
+									bad = true
+								}
+								v.Inspect(false, func(n ast.Node) bool {
+									if id, ok := n.(*ast.Ident); ok && id.Name == name {
+										bad = true
+									}
+									return true
+								})
+							}
+							if bad {
+								guarded(o, hf, s, first)
+							} else {
+								o.Site("HopFee %s = %s is the default replaced where hopIndex != 0", name, c)
+							}
+						}
 					}
 				}
 			}
